@@ -395,7 +395,10 @@ def r3(ctx):
         # every way from the failure of modified() to the return passes an assignment of `true` to the answer (the arm that does it may be
         # shared with the failure of the link's modified())
         true_bbs = {bi for bi, s, v in assigns if v is True}
-        good = bool(true_bbs) and all(b.must_pass(e, lambda x: x in true_bbs)[0] for e in sw['err'])
+        # (later tests of the same Result - `(modified, _) => modified` and then `match modified` - are resolved the same way: it is an Err)
+        from ..analysis import result_tests, must_pass_state
+        mt_ = result_tests(b, M)
+        good = bool(true_bbs) and all((must_pass_state(b, e, mt_, 'err', true_bbs)[0] if mt_ else b.must_pass(e, lambda x: x in true_bbs)[0]) for e in sw['err'])
         ctx.check(good, rule, P + '|unreadable-mtime', M.where(), 'an unreadable mtime sets the answer to true', 'an unreadable mtime does not set the answer to true (fails open)')
     falses = [(bi, s) for bi, s, v in assigns if v is False]
     nonconst = [(bi, s) for bi, s, v in assigns if v is None]
